@@ -428,7 +428,18 @@ def sym_pow(a, b):
         return wrap_num(z3.RealVal(1) / r)
     ea, eb = to_z3(a, "real"), to_z3(b, "real")
     if _is_numeric_const(b) and fractions.Fraction(frac_of_float(b)) == fractions.Fraction(1, 2):
-        return Sym(ufun("sqrt")(ea))
+        from .stubs import sym_sqrt
+        return sym_sqrt(a)
+    if _is_numeric_const(b) and frac_of_float(b).denominator == 2 and abs(frac_of_float(b)) < 40:
+        # x**(n/2) = x**k * sqrt(x)
+        from .stubs import sym_sqrt
+        n = frac_of_float(b).numerator
+        k = (n - 1) // 2
+        r = sym_sqrt(a)
+        base = a if isinstance(a, Sym) else Sym(ea)
+        return (base ** k) * r if k != 0 else r
+    if _is_numeric_const(b) and frac_of_float(b).denominator != 1:
+        cur().domain_guard(ea >= 0 if frac_of_float(b) > 0 else ea > 0, "powbase")
     if _is_numeric_const(a) and frac_of_float(a) == 10:
         # 10**x = exp(x*ln 10): keep a dedicated symbol so that unit tests of exponents work
         return Sym(ufun("exp10")(eb))
